@@ -35,6 +35,8 @@ CONFIG = {
              "current real document to match >= 1 node; plus a structured stream (n/15 cases) for the alias-used-as-a-key "
              "branch: a mapping with an anchored key, aliases of it as value / element / key of a second mapping, changed "
              "through a value alias to a sibling key (refused), to itself, or to a fresh name (renamed).  "
+             "every step is compared twice: the model fed with the coordinates captured from the real read side, and "
+             "the fully modelled route (set-e2e / del-e2e: evaluator model + Mutate model on document, path text, value); "
              "non-trivial = at least one step applied a change; "
              "distinct = distinct (document, seed)."),
     "trusted_base": [
